@@ -264,11 +264,17 @@ class FeArray(np.ndarray):
                 )
 
         if elementwise:
+            # a field given as the mask or as the output buffer is lined up with the operands
+            # like any of them
             where = kwargs.get("where") if kwargs else None
-            if isinstance(where, FeArray):
-                # a field given as the mask is lined up with the operands like any of them
-                *inputs, where = FeArray._align((*inputs, where))
-                kwargs = {**kwargs, "where": where}
+            outs = kwargs.get("out") if kwargs else None
+            extras = [where] if isinstance(where, FeArray) else []
+            extras += [o for o in (outs or ()) if isinstance(o, FeArray)]
+            if extras:
+                aligned = FeArray._align((*inputs, *extras))
+                inputs = aligned[: len(inputs)]
+                if isinstance(where, FeArray):
+                    kwargs = {**kwargs, "where": aligned[len(inputs)]}
             else:
                 inputs = FeArray._align(inputs)
 
